@@ -433,6 +433,28 @@ def def_value(store_node):
     return None
 
 
+def only_return_value(fn_ast):
+    """Expression returned by the function when it has exactly one `return <expr>` (wherever it is nested)."""
+    rets = [n for n in ast.walk(fn_ast) if isinstance(n, ast.Return) and n.value is not None]
+    return rets[0].value if len(rets) == 1 else None
+
+
+def is_const_test(node):
+    """CFG test node on a literal constant (`if True:`): carries no information about the program state."""
+    return node.kind == "test" and isinstance(node.ast, ast.Constant)
+
+
+def flatten_const_ifs(stmts):
+    """Statement list with `if <truthy constant>:` blocks (no else) spliced in place."""
+    out = []
+    for s in stmts:
+        if isinstance(s, ast.If) and isinstance(s.test, ast.Constant) and s.test.value and not s.orelse:
+            out += flatten_const_ifs(s.body)
+        else:
+            out.append(s)
+    return out
+
+
 def is_none_test(e, negate=False):
     """`x is None` (or `x is not None` with negate). Returns the tested expr or None."""
     if isinstance(e, ast.Compare) and len(e.ops) == 1 and const_value(e.comparators[0]) is None \
